@@ -21,7 +21,8 @@
 EXTENDS Integers, Sequences, FiniteSets, TLC
 
 CONSTANTS Shots, Calcs, WeaponOf, AmmoOf,     \* object graph: functions Shots -> weapon / ammo names
-          Distances, Requests, DirtRule, MaxOps
+          Distances, Requests, DirtRule, MaxOps,
+          Ops                                 \* the operations a session may use (focused enumerations use a sub-alphabet)
 
 Weapons == {WeaponOf[s] : s \in Shots}
 Untouched == <<"z0">>      \* zero tokens are flat sequences of strings: the chain of successful zeroings
@@ -49,7 +50,7 @@ Res(a, c, s, arg) ==
   THEN <<a, arg, ArgState(s), c, "after", dirt[c]>>
   ELSE <<a, arg, ArgState(s), c>>
 
-Step(l) == ops < MaxOps /\ ops' = ops + 1 /\ last' = l
+Step(l) == l.a \in Ops /\ ops < MaxOps /\ ops' = ops + 1 /\ last' = l
 
 Fire(c, s, r) ==
   /\ Step([a |-> "Fire", c |-> c, s |-> s, arg |-> r, res |-> Res("Fire", c, s, r), ok |-> TRUE])
@@ -79,8 +80,9 @@ Build(s) ==
   /\ Step([a |-> "Build", c |-> "", s |-> s, arg |-> "mbc", res |-> <<"Build", AmmoOf[s]>>, ok |-> TRUE])
   /\ UNCHANGED <<content, zero, version, dirt>>
 
-\* the caller edits the drag table of a shot's ammunition IN PLACE: the arguments change, and every later result
-\* must be the one for the new content (a solver that cached something derived from the table would not notice)
+\* the caller edits a shot's ammunition IN PLACE (its drag table, or its powder-sensitivity configuration - the binding
+\* alternates): the same objects carry new content, and every later result must be the one for the new content (a solver
+\* that cached something derived from the table, or keyed on the identity of the objects, would not notice)
 EditTable(s) ==
   /\ content[AmmoOf[s]] < 2
   /\ Step([a |-> "EditTable", c |-> "", s |-> s, arg |-> "scaleCD", res |-> <<"EditTable", AmmoOf[s]>>, ok |-> TRUE])
